@@ -50,6 +50,9 @@ pub struct SPlan {
     pub client_window: u32,
     pub seg: CutP,
     pub payload_len: usize,
+    /// appended to the target of a reverse-proxied request (query strings, deeper paths)
+    #[serde(default)]
+    pub rp_suffix: String,
 }
 
 const LISTEN: &str = "198.51.100.1:443";
@@ -151,6 +154,7 @@ impl Scenario for Services {
             client_window: if rng.chance(1, 2) { 65_535 } else { rng.size(1024, 1 << 20) as u32 },
             seg: CutP::draw(&mut rng, 16 * 1024),
             payload_len: rng.size(0, 32 * 1024) as usize,
+            rp_suffix: (*rng.pick(&["", "", "?q=how+much&page=2", "?", "/deeper/path.txt", "?a=%20b&c=d/e", ";v=1?x=y"])).to_string(),
         };
         to_plan(&plan)
     }
@@ -230,9 +234,11 @@ fn request_of(plan: &SPlan) -> (String, String, String, Vec<(String, String)>, V
             if *by_path {
                 headers.push(("upgrade".into(), "websocket".into()));
                 headers.push(("connection".into(), "Upgrade".into()));
-                (MAIN.into(), "GET".into(), "/rp/socket".into(), headers, vec![])
+                headers.push(("x-custom".into(), "kept, as it is".into()));
+                (MAIN.into(), "GET".into(), format!("/rp/socket{}", plan.rp_suffix), headers, vec![])
             } else {
-                (RP.into(), "GET".into(), "/index.html".into(), headers, vec![])
+                headers.push(("x-custom".into(), "kept, as it is".into()));
+                (RP.into(), "GET".into(), format!("/index.html{}", plan.rp_suffix), headers, vec![])
             }
         }
     }
@@ -778,6 +784,20 @@ fn judge(plan: &SPlan, o: &Obs, out: &mut Outcome) {
             }
             if !head.starts_with("get ") || !head.contains(" http/1.1\r\n") {
                 out.violate("C18", format!("services:{}:not-http1-request", svc), head.clone());
+            }
+            // the target reaches the origin unchanged, query string included
+            let want_target = format!("{}{}", if *by_path { "/rp/socket" } else { "/index.html" }, plan.rp_suffix);
+            let raw = String::from_utf8_lossy(&o.origin_head).into_owned();
+            let got_target = raw.split("\r\n").next().and_then(|l| l.split(' ').nth(1)).unwrap_or("").to_string();
+            if got_target != want_target {
+                out.violate(
+                    "C18",
+                    format!("services:{}:target-changed", svc),
+                    format!("client asked for {:?}, the origin was asked for {:?}", want_target, got_target),
+                );
+            }
+            if !head.contains("x-custom: kept, as it is\r\n") {
+                out.violate("C18", format!("services:{}:header-lost", svc), head.clone());
             }
             let want_status = if *by_path { 101 } else { 200 };
             if status != want_status {
